@@ -393,8 +393,16 @@ def r7(ctx):
     ctx.check(P, rule, "byte length is the sum of the rebuilt roots' sizes", good, "0 + sum of node.length over changeset.roots", "byte_length is %s" % (term_str(bl)[:160] if bl else None))
 
 
-RULES = [r1, r2, r3, r4, r5, r6, r7]
-EXPLANATION = ("C05 (tree, root hash and signature match the v10 scheme): decides the hash pre-image layouts from the ordered Digest::update calls and the immediately-called encoding closures — "
+def r8(ctx):
+    """the key that signs (and is named in the stored header and manifest) is one key: the core's
+    key pair is the one of the header Oplog::open returned — not a key pair supplied again by the
+    caller on a later build over existing storage (same clause as C12.R6)"""
+    from . import c12
+    c12.r6(ctx, P, "C05.R8")
+
+
+RULES = [r1, r2, r3, r4, r5, r6, r7, r8]
+EXPLANATION = ("[R8: the signing key pair of a core is the key pair of the stored header] C05 (tree, root hash and signature match the v10 scheme): decides the hash pre-image layouts from the ordered Digest::update calls and the immediately-called encoding closures — "
                "leaf [0][u64le len][data], parent [1][u64le sum][lower-index child hash][other hash], tree [2] then per root [hash][u64le index][u64le length] (R1); the type bytes and the 32-byte tree "
                "namespace (R2); signable = [TREE][hash:32][u64le length][u64le fork] (R3); big-endian helper confined to unused legacy functions and every node producer hashing through Hash::data / "
                "Hash::parent with index / size operands of the scheme (R4); sign/verify symmetry and the header / entry copies of hash, signature, length (R5); the 40-byte tree record (R6); the position-by-position rebuild of the root list when a logged upgrade is replayed (R7).")
